@@ -295,6 +295,9 @@ func runEngine(r *R, sp engSpec, horizon time.Duration) *engResult {
 		script := stubs.DefaultGunScript()
 		script.ShotDur = sp.Shots.dur
 		script.NewErrAt = sp.GunErrAt
+		// the guns report a pooled sample per shot and the aggregator recycles what it has handled (as phout does): a
+		// sample somebody keeps using after handing it over then meets another shot's values
+		script.Report = true
 		if sp.PanicOn {
 			script.PanicInst, script.PanicShot = sp.PanicInst, sp.PanicShot
 		}
@@ -307,7 +310,7 @@ func runEngine(r *R, sp engSpec, horizon time.Duration) *engResult {
 		res.Metrics = newMetrics()
 		pool := engine.InstancePoolConfig{
 			Provider:        &stubs.RecProvider{Provider: engProvider(sp), Log: log},
-			Aggregator:      &stubs.RecAggregator{Aggregator: aggregator.NewDiscard(), Log: log},
+			Aggregator:      &stubs.RecAggregator{Aggregator: aggregator.NewDiscard(), Log: log, Recycle: true},
 			NewGun:          fac.New,
 			RPSPerInstance:  sp.PerInstance,
 			StartupSchedule: &stubs.RecSchedule{Schedule: startup, Log: log, Name: "startup"},
